@@ -24,6 +24,7 @@ inductive PyErr where
   | typeError        -- `msg % args`: not enough arguments / not all arguments converted
   | valueError       -- `msg % args`: unsupported or incomplete format directive
   | scrapliException -- raised by emit_buffered with an empty buffer
+  | unicodeEncodeError -- `stream.write(text)`: a character the file's encoding cannot encode
 deriving Repr, DecidableEq
 
 /-- one element of `record.args`; the model keeps CPython's own renderings of the object -/
@@ -99,10 +100,16 @@ structure Variant where
   lazyAware : Bool      -- C20-lazy-read-records: payload from getMessage(), args dropped when coalescing
   flushOnClose : Bool   -- C20-flush-on-close: close() emits the buffered record
   portDefault : Bool    -- C20-formatter-port: host without port is formatted instead of raising
+  asciiStream : Bool    -- ENVIRONMENT and code: the log file was opened with an encoding that cannot
+                        -- encode every character — modelled instance: ASCII, i.e. no `encoding=` passed
+                        -- by enable_basic_logging (before C20-log-file-utf8) AND a non-UTF-8 locale
+                        -- (LC_ALL=C without UTF-8 mode).  false = the stream is UTF-8.
 deriving Repr, DecidableEq
 
-def Variant.fixed : Variant := ⟨true, true, true⟩
-def Variant.legacy : Variant := ⟨false, false, false⟩
+def Variant.fixed : Variant := ⟨true, true, true, false⟩
+def Variant.legacy : Variant := ⟨false, false, false, false⟩
+
+def isAsciiStr (s : Str) : Bool := s.all (·.toNat < 128)
 
 /-! ## ScrapliFormatter (logging.py:27-139) -/
 
@@ -200,10 +207,16 @@ structure HSt where
 deriving Repr, DecidableEq
 
 /-- `logging.StreamHandler.emit(record)`:
-    `try: msg = self.format(record); stream.write(msg + "\n") except Exception: self.handleError(record)` -/
+    `try: msg = self.format(record); stream.write(msg + "\n") except Exception: self.handleError(record)`.
+    `stream.write` encodes the whole text first: on an ASCII stream a non-ASCII character raises
+    UnicodeEncodeError, nothing is written — but `formatMessage` has already advanced `message_id`
+    (so a header row that was part of this text is never written at all). -/
 def baseEmit (v : Variant) (cfg : FmtCfg) (h : HSt) (r : Rec) : HSt :=
   match format v cfg h.nextId r with
-  | .ok s => { h with nextId := h.nextId + 1, out := h.out ++ [.line s] }
+  | .ok s =>
+    if v.asciiStream && !isAsciiStr s then
+      { h with nextId := h.nextId + 1, out := h.out ++ [.error .unicodeEncodeError] }
+    else { h with nextId := h.nextId + 1, out := h.out ++ [.line s] }
   | .error e => { h with out := h.out ++ [.error e] }
 
 /-- `ScrapliFileHandler.emit_buffered()` (called only with a record in the buffer) -/
